@@ -4,6 +4,8 @@ COMMON = ["harness/mon.c", "harness/lec.c", "ref/ref.c"]
 DRIVER_SOURCES = {
     "drv_codec": {"src": ["harness/drv_codec.c"] + COMMON},
     "drv_format": {"src": ["harness/drv_format.c"] + COMMON},
+    "drv_api": {"src": ["harness/drv_api.c", "harness/ledger.c"] + COMMON},
+    "drv_api_ledger": {"src": ["harness/drv_api.c", "harness/ledger.c"] + COMMON, "cflags": ["-DLEDGER"]},
 }
 
 TRUST = ["compiler sanitizers (ASan/UBSan) observe only executed paths",
@@ -30,7 +32,39 @@ def fmt(prop, rule, flavours=("asan",), **kw):
     return d
 
 
+def api(prop, level, rule, **kw):
+    d = {"level": level, "rule": rule, "assumptions": TRUST + ["resource ledger classifies allocations by the return address of the malloc-family call (library objects vs harness)"],
+         "runs": [{"name": "asan", "flavour": "asan", "driver": "drv_api", "args": [], "leaks": True},
+                  {"name": "plain-ledger", "flavour": "plain", "driver": "drv_api_ledger", "args": []}]}
+    d.update(kw)
+    return d
+
+
 PROPS = {
+    "C14": api("C14", "exploration",
+               "history + executable model: all canonical action sequences over <=4 slots with alphabet {create rs(4,2), rs(3,3), xor(5,5,3), null, failed-create, destroy(dead), destroy(slot), use(slot)} up to depth 4 (quick) / 6 (thorough), each with and without the descriptor counter preset to INT_MAX-3; "
+               "random histories of length 10..200 with counter presets {none, INT_MAX-3, INT_MAX-1, -5}; all 24 destruction orders of four RS instances; after every step: registry length == |model|, descriptor positive and unique, APIs on dead descriptors fail, used instance round-trips (decode with data loss + re-encode equals kept stripe); "
+               "non-trivial = every history; distinct = (action sequence, preset)",
+               exhaustive={"quick": True, "thorough": True},
+               exhaustive_scope="all canonical sequences up to depth 4 (quick) / 6 (thorough) over the stated alphabet; longer histories are random",
+               extra_runs=[{"name": "clang-O2", "flavour": "clang", "driver": "drv_api_ledger", "args": []}]),
+    "C16": api("C16", "exploration",
+               "case = one random API history (20..300 steps, 4 slots, all available backends) mixing create/destroy/encode/decode (ok, too few, unrecoverable, duplicates, bad header, re-sealed edits)/reconstruct (ok, too few, bad destination)/fragments_needed/metadata/validation/invalid arguments/unsupported shapes, each step followed by its cleanup call; "
+               "monitors: ASan (double free, use-after-free, overflow), LeakSanitizer recoverable check every 16 histories and at exit, conservation ledger (library-allocated live blocks and dlopen balance back to the pre-step value after every self-contained step and to the baseline at the end of each history); "
+               "non-trivial = every history; distinct = history index/seed",
+               require_stats=["rc_decode_0", "rc_decode_EINSUFFFRAGS", "rc_decode_EBADHEADER", "rc_reconstruct_0", "rc_reconstruct_EINSUFFFRAGS", "rc_reconstruct_EINVALIDPARAMS",
+                              "rc_create_EBACKENDINITERR", "rc_create_EBACKENDNOTAVAIL", "rc_create_EINVALIDPARAMS", "rc_create_EBACKENDNOTSUPP", "rc_encode_0", "rc_invalid_arg_call_EINVALIDPARAMS"]),
+    "C17": api("C17", "fault_enumeration",
+               "fault injection at the plugin boundary (operation table of the backend descriptor swapped for counting stubs around create): for each backend and each of init/encode/decode/reconstruct/fragments_needed, EVERY call position of that operation in a scripted workload (create, 3 encodes, 6 decodes with data loss, 5 reconstructs, 4 fragments_needed, destroy) fails once, plus shuffled scripts with random fault positions; "
+               "oracle: public rc<0, ledger delta 0 right after the failing call (heap and dlopen), registry unchanged for init, the next identical call succeeds byte-exactly, ledger back to baseline after destroy; ASan+LSan underneath; non-trivial = every fault position; distinct = (config, operation, position)",
+               exhaustive={"quick": True, "thorough": True},
+               exhaustive_scope="every call position of every backend operation in the scripted workload, for 7 configurations"),
+    "C13": api("C13", "exploration",
+               "case = one public call with an invalid argument (every entry point x dead/unknown descriptors {0,-1,INT_MAX,INT_MIN,never issued,destroyed} x NULL-argument subsets x counts {-1,0,INT_MIN} x fragment_len {0,1,79} x out-of-range destinations x bad backend ids), "
+               "or one shape of the box backend x k,m in -1..33 x hd 0..7 x w (create refused, or full encode/decode/reconstruct/query/destroy cycle without faults); output pointers pre-poisoned; "
+               "oracle = rc<0 (validator: invalid), conservation ledger delta 0, no sanitizer report; non-trivial = every case; distinct = (config, api, argument variant) or shape",
+               exhaustive={"quick": True, "thorough": True},
+               exhaustive_scope="the (k,m) box -1..33 x -1..33 for every backend (hd 0..7 for flat-XOR); w sampled in quick, all 10 values in thorough"),
     "C07": fmt("C07", "case = one encode (config, checksum type, legacy-CRC switch value, length, data kind); every byte of every fragment compared with the independent serializer (header at literal offsets, bitwise CRCs, model parity); "
                "sizeof/offsetof of the public header struct reported as runtime facts; non-trivial = every encode; distinct = (config, switch, length, data kind)",
                flavours=("asan", "plain", "clang")),
